@@ -338,7 +338,9 @@ func groupSamRecords(sam io.Reader, cHeader chan biogosam.Header, chnl chan samR
 
 	s, err := biogosam.NewReader(sam)
 	if err != nil {
+		// there is no reader (and no header) to carry on with, e.g. if the stream is empty
 		cerr <- err
+		return
 	}
 
 	cHeader <- *s.Header()
